@@ -1346,4 +1346,720 @@ theorem fromSplit_split (i : Imp) (h : wfName i.fullname = true) : Imp.fromSplit
       · simp [ha, hf']
       · simp [ha, hf']
 
+/-! ## orders, sortedness, invariance under permutation -/
+
+theorem strLt_irrefl (a : Str) : strLt a a = false := by
+  induction a with
+  | nil => rfl
+  | cons c cs ih => simp [strLt, ih]
+
+theorem strLt_trans (a b c : Str) (h1 : strLt a b = true) (h2 : strLt b c = true) : strLt a c = true := by
+  induction a generalizing b c with
+  | nil =>
+    cases b with
+    | nil => simp [strLt] at h1
+    | cons y ys =>
+      cases c with
+      | nil => simp [strLt] at h2
+      | cons z zs => rfl
+  | cons x xs ih =>
+    cases b with
+    | nil => simp [strLt] at h1
+    | cons y ys =>
+      cases c with
+      | nil => simp [strLt] at h2
+      | cons z zs =>
+        simp only [strLt, Bool.or_eq_true, decide_eq_true_eq, Bool.and_eq_true] at h1 h2 ⊢
+        rcases h1 with h1 | ⟨rfl, h1⟩
+        · rcases h2 with h2 | ⟨rfl, h2⟩
+          · left; omega
+          · left; exact h1
+        · rcases h2 with h2 | ⟨rfl, h2⟩
+          · left; exact h2
+          · right; exact ⟨rfl, ih _ _ h1 h2⟩
+
+theorem strLt_asymm (a b : Str) (h : strLt a b = true) : strLt b a = false := by
+  cases h' : strLt b a with
+  | false => rfl
+  | true =>
+    have := strLt_trans a b a h h'
+    rw [strLt_irrefl] at this
+    cases this
+
+theorem strLt_connected (a b : Str) (h1 : strLt a b = false) (h2 : strLt b a = false) : a = b := by
+  induction a generalizing b with
+  | nil =>
+    cases b with
+    | nil => rfl
+    | cons y ys => simp [strLt] at h1
+  | cons x xs ih =>
+    cases b with
+    | nil => simp [strLt] at h2
+    | cons y ys =>
+      simp only [strLt, Bool.or_eq_false_iff, decide_eq_false_iff_not, Bool.and_eq_false_iff] at h1 h2
+      have hxy : x = y := by
+        apply Char.toNat_inj.mp
+        omega
+      subst hxy
+      have h1' : strLt xs ys = false := by
+        rcases h1.2 with h | h
+        · exact absurd rfl h
+        · exact h
+      have h2' : strLt ys xs = false := by
+        rcases h2.2 with h | h
+        · exact absurd rfl h
+        · exact h
+      rw [ih ys h1' h2']
+
+/-- a total preorder that is antisymmetric, as Bool-valued relation -/
+structure LinOrd {α} (le : α → α → Bool) : Prop where
+  total : ∀ a b, le a b = false → le b a = true
+  trans : ∀ a b c, le a b = true → le b c = true → le a c = true
+  antisymm : ∀ a b, le a b = true → le b a = true → a = b
+
+theorem strLe_linOrd : LinOrd strLe := by
+  refine ⟨?_, ?_, ?_⟩
+  · intro a b h
+    simp only [strLe, Bool.not_eq_false'] at h
+    simp only [strLe, Bool.not_eq_true']
+    exact strLt_asymm _ _ h
+  · intro a b c h1 h2
+    simp only [strLe, Bool.not_eq_true'] at h1 h2 ⊢
+    cases h : strLt c a with
+    | false => rfl
+    | true =>
+      exfalso
+      -- c < a, ¬ b < a, ¬ c < b
+      cases hab : strLt a b with
+      | true =>
+        have := strLt_trans c a b h hab
+        rw [h2] at this; cases this
+      | false =>
+        have := strLt_connected a b hab h1
+        subst this
+        rw [h2] at h; cases h
+  · intro a b h1 h2
+    simp only [strLe, Bool.not_eq_true'] at h1 h2
+    exact strLt_connected a b h2 h1
+
+theorem impLe_linOrd : LinOrd impLe := by
+  refine ⟨?_, ?_, ?_⟩
+  · intro a b h
+    simp only [impLe, Bool.or_eq_false_iff, Bool.and_eq_false_iff, decide_eq_false_iff_not] at h
+    simp only [impLe, Bool.or_eq_true, Bool.and_eq_true, decide_eq_true_eq]
+    obtain ⟨h1, h2⟩ := h
+    by_cases hf : a.fullname = b.fullname
+    · right
+      refine ⟨hf.symm, ?_⟩
+      rcases h2 with h2 | h2
+      · exact absurd hf h2
+      · exact strLe_linOrd.total _ _ h2
+    · left
+      cases h' : strLt b.fullname a.fullname with
+      | true => rfl
+      | false => exact absurd (strLt_connected _ _ h1 h') hf
+  · intro a b c h1 h2
+    simp only [impLe, Bool.or_eq_true, Bool.and_eq_true, decide_eq_true_eq] at h1 h2 ⊢
+    rcases h1 with h1 | ⟨e1, h1⟩
+    · rcases h2 with h2 | ⟨e2, h2⟩
+      · left; exact strLt_trans _ _ _ h1 h2
+      · left; rw [← e2]; exact h1
+    · rcases h2 with h2 | ⟨e2, h2⟩
+      · left; rw [e1]; exact h2
+      · right; exact ⟨e1.trans e2, strLe_linOrd.trans _ _ _ h1 h2⟩
+  · intro a b h1 h2
+    simp only [impLe, Bool.or_eq_true, Bool.and_eq_true, decide_eq_true_eq] at h1 h2
+    obtain ⟨af, aa⟩ := a
+    obtain ⟨bf, ba⟩ := b
+    simp only at h1 h2
+    rcases h1 with h1 | ⟨e1, h1⟩
+    · rcases h2 with h2 | ⟨e2, h2⟩
+      · have := strLt_asymm _ _ h1; rw [h2] at this; cases this
+      · rw [e2, strLt_irrefl] at h1; cases h1
+    · rcases h2 with h2 | ⟨e2, h2⟩
+      · rw [e1, strLt_irrefl] at h2; cases h2
+      · rw [e1, strLe_linOrd.antisymm _ _ h1 h2]
+
+theorem gkLe_linOrd : LinOrd gkLe := by
+  refine ⟨?_, ?_, ?_⟩
+  · intro a b h
+    simp only [gkLe, Bool.or_eq_false_iff, Bool.and_eq_false_iff, decide_eq_false_iff_not] at h
+    simp only [gkLe, Bool.or_eq_true, Bool.and_eq_true, decide_eq_true_eq]
+    obtain ⟨h1, h2⟩ := h
+    by_cases hg : a.grp = b.grp
+    · right
+      refine ⟨hg.symm, ?_⟩
+      rcases h2 with h2 | ⟨h2, h3⟩
+      · exact absurd hg h2
+      · by_cases hk : a.key = b.key
+        · right
+          refine ⟨hk.symm, ?_⟩
+          rcases h3 with h3 | h3
+          · exact absurd hk h3
+          · omega
+        · left
+          cases h' : strLt b.key a.key with
+          | true => rfl
+          | false => exact absurd (strLt_connected _ _ h2 h') hk
+    · left; omega
+  · intro a b c h1 h2
+    simp only [gkLe, Bool.or_eq_true, Bool.and_eq_true, decide_eq_true_eq] at h1 h2 ⊢
+    rcases h1 with h1 | ⟨e1, h1⟩
+    · rcases h2 with h2 | ⟨e2, h2⟩
+      · left; omega
+      · left; omega
+    · rcases h2 with h2 | ⟨e2, h2⟩
+      · left; omega
+      · right
+        refine ⟨e1.trans e2, ?_⟩
+        rcases h1 with h1 | ⟨k1, h1⟩
+        · rcases h2 with h2 | ⟨k2, h2⟩
+          · left; exact strLt_trans _ _ _ h1 h2
+          · left; rw [← k2]; exact h1
+        · rcases h2 with h2 | ⟨k2, h2⟩
+          · left; rw [k1]; exact h2
+          · right; exact ⟨k1.trans k2, by omega⟩
+  · intro a b h1 h2
+    simp only [gkLe, Bool.or_eq_true, Bool.and_eq_true, decide_eq_true_eq] at h1 h2
+    obtain ⟨ag, ak, al⟩ := a
+    obtain ⟨bg, bk, bl⟩ := b
+    simp only at h1 h2
+    have hg : ag = bg := by
+      rcases h1 with h1 | ⟨e1, _⟩
+      · rcases h2 with h2 | ⟨e2, _⟩
+        · omega
+        · omega
+      · exact e1
+    subst hg
+    have h1' : strLt ak bk = true ∨ (ak = bk ∧ al ≤ bl) := by
+      rcases h1 with h1 | ⟨_, h1⟩
+      · omega
+      · exact h1
+    have h2' : strLt bk ak = true ∨ (bk = ak ∧ bl ≤ al) := by
+      rcases h2 with h2 | ⟨_, h2⟩
+      · omega
+      · exact h2
+    rcases h1' with h1' | ⟨e1, h1'⟩
+    · rcases h2' with h2' | ⟨e2, _⟩
+      · have := strLt_asymm _ _ h1'; rw [h2'] at this; cases this
+      · rw [e2, strLt_irrefl] at h1'; cases h1'
+    · rcases h2' with h2' | ⟨_, h2'⟩
+      · rw [e1, strLt_irrefl] at h2'; cases h2'
+      · subst e1
+        have : al = bl := by omega
+        rw [this]
+
+theorem mem_insertBy {α} (le : α → α → Bool) (a x : α) (l : List α) : x ∈ insertBy le a l ↔ x = a ∨ x ∈ l :=
+  by rw [(insertBy_perm le a l).mem_iff]; simp
+
+theorem insertBy_pairwise {α} (le : α → α → Bool) (ho : LinOrd le) (a : α) (l : List α)
+    (h : l.Pairwise (fun x y => le x y = true)) : (insertBy le a l).Pairwise (fun x y => le x y = true) := by
+  induction l with
+  | nil => simp [insertBy]
+  | cons b bs ih =>
+    rw [List.pairwise_cons] at h
+    unfold insertBy
+    cases hab : le a b with
+    | true =>
+      simp only [if_true]
+      rw [List.pairwise_cons]
+      refine ⟨?_, List.pairwise_cons.mpr h⟩
+      intro x hx
+      simp at hx
+      rcases hx with rfl | hx
+      · exact hab
+      · exact ho.trans _ _ _ hab (h.1 x hx)
+    | false =>
+      simp only [Bool.false_eq_true, if_false]
+      rw [List.pairwise_cons]
+      refine ⟨?_, ih h.2⟩
+      intro x hx
+      rcases (mem_insertBy le a x bs).mp hx with rfl | hx
+      · exact ho.total _ _ hab
+      · exact h.1 x hx
+
+theorem isort_pairwise {α} (le : α → α → Bool) (ho : LinOrd le) (l : List α) :
+    (isort le l).Pairwise (fun x y => le x y = true) := by
+  induction l with
+  | nil => simp [isort]
+  | cons a as ih => exact insertBy_pairwise le ho a _ ih
+
+theorem isort_eq_of_perm {α} (le : α → α → Bool) (ho : LinOrd le) (l₁ l₂ : List α) (h : l₁.Perm l₂) :
+    isort le l₁ = isort le l₂ :=
+  List.Perm.eq_of_pairwise (le := fun x y => le x y = true)
+    (fun a b _ _ h1 h2 => ho.antisymm a b h1 h2)
+    (isort_pairwise le ho l₁) (isort_pairwise le ho l₂)
+    ((isort_perm le l₁).trans (h.trans (isort_perm le l₂).symm))
+
+theorem dedup_perm {α} [DecidableEq α] (l₁ l₂ : List α) (h : ∀ x, x ∈ l₁ ↔ x ∈ l₂) :
+    (dedup l₁).Perm (dedup l₂) :=
+  (List.perm_ext_iff_of_nodup (nodup_dedup l₁) (nodup_dedup l₂)).mpr
+    (fun x => by rw [mem_dedup, mem_dedup]; exact h x)
+
+theorem dedup_of_nodup {α} [DecidableEq α] (l : List α) (h : l.Nodup) : dedup l = l := by
+  induction l with
+  | nil => rfl
+  | cons a as ih =>
+    rw [List.nodup_cons] at h
+    unfold dedup
+    rw [if_neg h.1, ih h.2]
+
+theorem perm_short_eq {α} (l₁ l₂ : List α) (h : l₁.Perm l₂) (hl : l₁.length ≤ 1) : l₁ = l₂ := by
+  have hlen := h.length_eq
+  match l₁, l₂ with
+  | [], [] => rfl
+  | [a], [b] =>
+    have := h.mem_iff (a := a)
+    simp at this
+    rw [this]
+  | [], _ :: _ => simp at hlen
+  | [_], [] => simp at hlen
+  | [_], _ :: _ :: _ => simp at hlen
+  | _ :: _ :: _, _ => simp at hl
+
+theorem groupStmts_perm (g₁ g₂ : List Imp) (h : g₁.Perm g₂) : groupStmts g₁ = groupStmts g₂ := by
+  unfold groupStmts
+  have hs := h.filter (fun i => decide (i.importAs = star))
+  have hn := h.filter (fun i => decide (i.importAs ≠ star))
+  have hnon : isort impLe (g₁.filter (fun i => decide (i.importAs ≠ star)))
+      = isort impLe (g₂.filter (fun i => decide (i.importAs ≠ star))) := isort_eq_of_perm _ impLe_linOrd _ _ hn
+  have hne : (g₁.filter (fun i => decide (i.importAs ≠ star)) = []) ↔ (g₂.filter (fun i => decide (i.importAs ≠ star)) = []) := by
+    constructor
+    · intro e; rw [e] at hn; exact List.perm_nil.mp hn.symm |> fun x => x
+    · intro e; rw [e] at hn; exact List.perm_nil.mp hn
+  dsimp only
+  by_cases hl : (g₁.filter (fun i => decide (i.importAs = star))).length > 1
+  · have hl2 : (g₂.filter (fun i => decide (i.importAs = star))).length > 1 := by rw [← hs.length_eq]; exact hl
+    simp only [hl, hl2, if_true]
+    rfl
+  · have hse := perm_short_eq _ _ hs (by omega)
+    rw [← hse, hnon]
+    simp only [hne]
+
+theorem mapM_congr' {ε α β} (f g : α → Except ε β) (l : List α) (h : ∀ x ∈ l, f x = g x) :
+    l.mapM f = l.mapM g := by
+  induction l with
+  | nil => rfl
+  | cons a as ih =>
+    rw [List.mapM_cons, List.mapM_cons, h a (by simp), ih (fun x hx => h x (List.mem_cons_of_mem _ hx))]
+
+theorem getStatements_perm (S₁ S₂ : List Imp) (sep : Bool) (h : S₁.Perm S₂) :
+    getStatements S₁ sep = getStatements S₂ sep := by
+  unfold getStatements
+  have hk : isort gkLe (dedup (S₁.map (gkeyOf sep))) = isort gkLe (dedup (S₂.map (gkeyOf sep))) :=
+    isort_eq_of_perm _ gkLe_linOrd _ _ (dedup_perm _ _ (fun x => (h.map _).mem_iff))
+  simp only [hk]
+  congr 1
+  apply mapM_congr'
+  intro k _
+  exact groupStmts_perm _ _ (h.filter _)
+
+theorem any_perm {α} (p : α → Bool) (l₁ l₂ : List α) (h : l₁.Perm l₂) : l₁.any p = l₂.any p := by
+  rw [Bool.eq_iff_iff]
+  simp only [List.any_eq_true]
+  constructor
+  · rintro ⟨x, hx, hp⟩; exact ⟨x, h.mem_iff.mp hx, hp⟩
+  · rintro ⟨x, hx, hp⟩; exact ⟨x, h.mem_iff.mpr hx, hp⟩
+
+theorem conflicting_perm (S₁ S₂ : List Imp) (h : S₁.Perm S₂) : conflicting S₁ = conflicting S₂ := by
+  unfold conflicting
+  rw [any_perm _ _ _ h]
+  congr 1
+  funext i
+  rw [any_perm _ _ _ h]
+
+/-- `pretty` depends only on the set of imports -/
+theorem pretty_perm (l₁ l₂ : List Imp) (p : Params) (h : (dedup l₁).Perm (dedup l₂)) :
+    pretty l₁ p = pretty l₂ p := by
+  unfold pretty
+  simp only [conflicting_perm _ _ h, getStatements_perm _ _ p.sepFrom h]
+
+/-! ## helpers of the property theorems (line lists, block lexing, read-back) -/
+
+/-- text and number of tokens of every line, final line last -/
+def lineTexts (c : FillCfg) : List Line → List (Str × Nat)
+  | [] => []
+  | [l] => [(l.text c true, l.toks.length)]
+  | l :: l' :: ls => (l.text c false, l.toks.length) :: lineTexts c (l' :: ls)
+
+theorem renderLines_eq (c : FillCfg) (L : List Line) :
+    renderLines c L = ((lineTexts c L).map fun x => x.1 ++ c.nl).flatten := by
+  induction L with
+  | nil => rfl
+  | cons l ls ih =>
+    cases ls with
+    | nil => simp [renderLines, lineTexts, Line.renderT, Line.text, List.append_assoc]
+    | cons l' ls' =>
+      simp only [renderLines, lineTexts, List.map_cons, List.flatten_cons]
+      rw [ih]
+      simp [Line.renderN, Line.text, List.append_assoc, lineTexts]
+
+theorem lineTexts_width (c : FillCfg) (N : Nat) (L : List Line) (h : WidthOK c N L) :
+    ∀ x ∈ lineTexts c L, x.1.length > N → x.2 ≤ 1 := by
+  induction L with
+  | nil => intro x hx; cases hx
+  | cons l ls ih =>
+    cases ls with
+    | nil =>
+      intro x hx hlen
+      simp [lineTexts] at hx
+      subst hx
+      simp only [WidthOK] at h
+      rcases h with h | h
+      · exact h
+      · simp only at hlen; omega
+    | cons l' ls' =>
+      intro x hx hlen
+      simp only [lineTexts, List.mem_cons] at hx
+      simp only [WidthOK] at h
+      rcases hx with rfl | hx
+      · rcases h.1 with h1 | h1
+        · exact h1
+        · simp only at hlen; omega
+      · exact ih h.2 x (by simpa [lineTexts] using hx) hlen
+
+/-- the physical lines `pyfill` writes after nothing: (text without newline, number of tokens on it) -/
+def pyfillLines (pfx : Str) (tokens : List Str) (p : Params) : List (Str × Nat) :=
+  match tokens with
+  | [] => []
+  | t :: ts =>
+    if fitsOneLine pfx tokens p then [(pfx ++ sjoin ", ".toList tokens, tokens.length)]
+    else if useHanging pfx tokens p then
+      (pfx ++ ['('], 0) :: lineTexts (hangCfg p) (fillLines (hangCfg p) p.N ⟨(hangCfg p).pre1, [t]⟩ ts)
+    else lineTexts (parenCfg pfx) (fillLines (parenCfg pfx) p.N ⟨(parenCfg pfx).pre1, [t]⟩ ts)
+
+theorem slen_sjoin (tokens : List Str) :
+    (sjoin [',', ' '] tokens).length = slen tokens + 2 * (tokens.length - 1) := by
+  induction tokens with
+  | nil => rfl
+  | cons t ts ih =>
+    cases ts with
+    | nil => simp [sjoin, slen]
+    | cons t' ts' =>
+      simp only [sjoin, List.length_append, ih, slen, List.map_cons, List.sum_cons, List.length_cons]
+      simp
+      omega
+
+theorem bind_eq_ok {ε α β} (x : Except ε α) (f : α → Except ε β) (b : β) :
+    (x >>= f) = .ok b ↔ ∃ a, x = .ok a ∧ f a = .ok b := by
+  cases x with
+  | error e => simp [bind, Except.bind]
+  | ok a => simp [bind, Except.bind]
+
+inductive Forall2 {α β} (R : α → β → Prop) : List α → List β → Prop
+  | nil : Forall2 R [] []
+  | cons {a b as bs} : R a b → Forall2 R as bs → Forall2 R (a :: as) (b :: bs)
+
+theorem mapM_ok_forall₂ {ε α β} (f : α → Except ε β) (l : List α) (ts : List β)
+    (h : l.mapM f = .ok ts) : Forall2 (fun a t => f a = .ok t) l ts := by
+  induction l generalizing ts with
+  | nil =>
+    simp [List.mapM_nil, pure, Except.pure] at h
+    subst h; exact .nil
+  | cons a as ih =>
+    rw [List.mapM_cons] at h
+    obtain ⟨b, hb, h⟩ := (bind_eq_ok _ _ _).mp h
+    obtain ⟨bs, hbs, h⟩ := (bind_eq_ok _ _ _).mp h
+    simp [pure, Except.pure] at h
+    subst h
+    exact .cons hb (ih bs hbs)
+
+/-- column and `from` spacing a statement is printed with (`pp` of `ImportSet.pretty_print`) -/
+def stArgs (p : Params) (col : Option Nat) (st : Stmt) : Option Nat × Nat :=
+  if doAlign p st then (col, max 1 p.fromSpaces) else (none, 1)
+
+/-- the statements a printed statement reads back as (itself, except that the repaired tree writes an
+    overlong plain `import a, a as b` as one statement per alias) -/
+def readBack (p : Params) (col : Option Nat) (st : Stmt) : List Stmt :=
+  emitted st p (stArgs p col st).1 (stArgs p col st).2
+
+theorem lex_nil_bol : lex 0 true [] = some [] := by
+  conv => lhs; rw [lex.eq_def]
+  simp
+
+theorem lex_block (stmts : List Stmt) (p : Params) (col : Option Nat) (texts : List Str)
+    (hok : ∀ st ∈ stmts, StmtTxtOK st)
+    (h : Forall2 (fun st t => st.pretty p (stArgs p col st).1 (stArgs p col st).2 = .ok t) stmts texts) :
+    lex 0 true texts.flatten = some ((stmts.map fun st =>
+      ((readBack p col st).map fun s =>
+        stmtToks s (parenOf st p (stArgs p col st).1 (stArgs p col st).2) ++ [Tok.newline]).flatten).flatten) := by
+  induction h with
+  | nil => exact lex_nil_bol
+  | @cons st t sts ts hst _ ih =>
+    rw [List.flatten_cons, lex_stmt_all st p _ _ t (hok st (by simp)) hst true,
+      ih (fun x hx => hok x (List.mem_cons_of_mem _ hx))]
+    simp [readBack]
+
+theorem validStmt_txtOK (st : Stmt) (h : validStmt st = true) : StmtTxtOK st := by
+  obtain ⟨fromname, aliases⟩ := st
+  simp only [validStmt, Bool.and_eq_true, decide_eq_true_eq] at h
+  obtain ⟨hne, h⟩ := h
+  refine ⟨hne, ?_, ?_⟩
+  · intro m hm
+    simp only at hm
+    subst hm
+    simp only [Bool.and_eq_true] at h
+    exact isFromMod_word m h.1
+  · intro a ha
+    cases fromname with
+    | none =>
+      simp only [List.all_eq_true] at h
+      exact validAlias_txtOK true a (h a ha)
+    | some m =>
+      simp only [Bool.and_eq_true, Bool.or_eq_true, decide_eq_true_eq, List.all_eq_true] at h
+      rcases h.2 with h2 | h2
+      · simp only at ha
+        rw [h2] at ha
+        simp at ha
+        subst ha
+        exact ⟨Or.inl rfl, by intro n hn; cases hn⟩
+      · exact validAlias_txtOK false a (h2 a ha)
+
+theorem nameTok_ne_newline (n : Str) : nameTok n ≠ .newline := by
+  unfold nameTok; split <;> simp
+
+theorem aliasToks_no_newline (a : Alias) : Tok.newline ∉ aliasToks a := by
+  obtain ⟨n, m⟩ := a
+  have := nameTok_ne_newline n
+  cases m <;> simp [aliasToks, Ne.symm this]
+
+theorem tjoin_no_newline (gs : List (List Tok)) (h : ∀ g ∈ gs, Tok.newline ∉ g) : Tok.newline ∉ tjoin gs := by
+  induction gs with
+  | nil => simp [tjoin]
+  | cons g gs ih =>
+    cases gs with
+    | nil => simpa [tjoin] using h g (by simp)
+    | cons g' gs' =>
+      simp only [tjoin, List.mem_append, List.mem_cons, not_or]
+      exact ⟨h g (by simp), by simp, ih (fun x hx => h x (List.mem_cons_of_mem _ hx))⟩
+
+theorem stmtToks_no_newline (st : Stmt) (paren : Bool) : Tok.newline ∉ stmtToks st paren := by
+  have hb : Tok.newline ∉ bodyToks st :=
+    tjoin_no_newline _ (by intro g hg; obtain ⟨a, _, rfl⟩ := List.mem_map.mp hg; exact aliasToks_no_newline a)
+  have hh : Tok.newline ∉ headToks st.fromname := by
+    cases hf : st.fromname <;> simp [headToks]
+  cases paren <;> simp [stmtToks, hb, hh]
+
+theorem mapM_parseLine (E : List (List Tok)) (S : List Stmt)
+    (h : Forall2 (fun e s => parseLine e = some s) E S) : E.mapM parseLine = some S := by
+  induction h with
+  | nil => rfl
+  | cons h1 _ ih => rw [List.mapM_cons, h1, ih]; rfl
+
+theorem Forall2.append {α β} {R : α → β → Prop} {a a' : List α} {b b' : List β}
+    (h : Forall2 R a b) (h' : Forall2 R a' b') : Forall2 R (a ++ a') (b ++ b') := by
+  induction h with
+  | nil => exact h'
+  | cons h1 _ ih => exact .cons h1 ih
+
+theorem Forall2.map_left {α β} {R : α → β → Prop} (f : β → α) (l : List β) (h : ∀ s ∈ l, R (f s) s) :
+    Forall2 R (l.map f) l := by
+  induction l with
+  | nil => exact .nil
+  | cons a as ih => exact .cons (h a (by simp)) (ih (fun s hs => h s (List.mem_cons_of_mem _ hs)))
+
+theorem Forall2.flatMap {α β γ} {R : α → β → Prop} (l : List γ) (f : γ → List α) (g : γ → List β)
+    (h : ∀ x ∈ l, Forall2 R (f x) (g x)) : Forall2 R (l.flatMap f) (l.flatMap g) := by
+  induction l with
+  | nil => exact .nil
+  | cons a as ih =>
+    simp only [List.flatMap_cons]
+    exact Forall2.append (h a (by simp)) (ih (fun x hx => h x (List.mem_cons_of_mem _ hx)))
+
+/-- every statement a printed statement reads back as is accepted by the parser -/
+theorem emitted_parse (st : Stmt) (p : Params) (col : Option Nat) (fs : Nat)
+    (hv : validStmt st = true) (hn : noBadParen st p col fs = true) :
+    ∀ s ∈ emitted st p col fs, parseLine (stmtToks s (parenOf st p col fs)) = some s := by
+  intro s hs
+  unfold emitted at hs
+  by_cases hsp : splitPlain st p col fs = true
+  · rw [if_pos hsp] at hs
+    obtain ⟨a, ha, rfl⟩ := List.mem_map.mp hs
+    simp only [splitPlain, Bool.and_eq_true, decide_eq_true_eq] at hsp
+    obtain ⟨⟨hd, hnp⟩, _, hlen⟩ := hsp
+    have hnone : st.fromname = none := by
+      simp only [neverParen, Bool.or_eq_true, Option.isNone_iff_eq_none, decide_eq_true_eq] at hnp
+      rcases hnp with h | h
+      · exact h
+      · rw [h] at hlen; simp at hlen
+    have hpar : parenOf st p col fs = false := by simp [parenOf, hd, hnp]
+    rw [hpar, hnone]
+    apply parseLine_ok
+    · simp only [validStmt, hnone, Bool.and_eq_true, decide_eq_true_eq, List.all_eq_true] at hv
+      simp [validStmt, hv.2 a ha]
+    · intro h; cases h
+  · rw [if_neg hsp] at hs
+    simp at hs
+    subst hs
+    apply parseLine_ok _ _ hv
+    intro hpar
+    simp only [parenOf, Bool.and_eq_true, Bool.not_eq_true', Bool.and_eq_false_iff] at hpar
+    obtain ⟨hbr, hparen⟩ := hpar
+    simp only [noBadParen, Bool.or_eq_true, Bool.and_eq_true, Bool.not_eq_true'] at hn
+    have hstar : isStarStmt s = true → neverParen s = true := by
+      intro h
+      simp only [isStarStmt, decide_eq_true_eq] at h
+      simp [neverParen, h, aliasTok, star]
+    rcases hbr with hd | hnp
+    · rcases hn with (hd' | hn) | hn
+      · rw [hd] at hd'; cases hd'
+      · rw [hparen] at hn; cases hn
+      · exact hn
+    · simp only [neverParen, Bool.or_eq_false_iff] at hnp
+      refine ⟨by cases hf : s.fromname <;> simp_all, ?_⟩
+      cases hst : isStarStmt s
+      · rfl
+      · have := hstar hst
+        simp only [neverParen, Bool.or_eq_true] at this
+        rcases this with h | h
+        · rw [hnp.1] at h; cases h
+        · rw [hnp.2] at h; cases h
+
+theorem noBadParen_repaired (st : Stmt) (p : Params) (col : Option Nat) (fs : Nat) (h : p.d2fix = true) :
+    noBadParen st p col fs = true := by simp [noBadParen, h]
+
+theorem readBack_unrepaired (p : Params) (col : Option Nat) (st : Stmt) (h : p.d2fix = false) :
+    readBack p col st = [st] := by simp [readBack, emitted, splitPlain, h]
+
+theorem groups_imports (S : List Imp) (sep : Bool) (keys : List GKey) (groups : List (List Stmt))
+    (hfa : Forall2 (fun k g => groupStmts (S.filter fun i => gkeyOf sep i = k) = .ok g) keys groups)
+    (hrt : ∀ i ∈ S, Imp.fromSplit i.split = i) :
+    (groups.flatten.flatMap Stmt.imports).Perm (keys.flatMap fun k => S.filter fun i => gkeyOf sep i = k) := by
+  induction hfa with
+  | nil => simp
+  | @cons k g ks gs hk _ ih =>
+    simp only [List.flatten_cons, List.flatMap_append, List.flatMap_cons]
+    refine List.Perm.append ?_ ih
+    exact groupStmts_imports _ g hk (fun i hi => hrt i (List.mem_filter.mp hi).1)
+
+theorem splitNl_append_nl (l r : Str) (h : '\n' ∉ l) : splitNl (l ++ '\n' :: r) = l :: splitNl r := by
+  induction l with
+  | nil => simp [splitNl]
+  | cons c cs ih =>
+    have hc : c ≠ '\n' := fun e => h (by simp [e])
+    have := ih (fun hm => h (List.mem_cons_of_mem _ hm))
+    rw [List.cons_append, splitNl, if_neg hc, this]
+
+theorem splitNl_lines (L : List Str) (h : ∀ l ∈ L, '\n' ∉ l) :
+    splitNl ((L.map (· ++ ['\n'])).flatten) = L ++ [[]] := by
+  induction L with
+  | nil => rfl
+  | cons l ls ih =>
+    have := ih (fun x hx => h x (List.mem_cons_of_mem _ hx))
+    simp only [List.map_cons, List.flatten_cons, List.append_assoc, List.cons_append, List.nil_append]
+    rw [splitNl_append_nl l _ (h l (by simp)), this]
+
+theorem mem_rstrip (s : Str) (c : Char) (h : c ∈ rstrip s) : c ∈ s := by
+  unfold rstrip at h
+  rw [List.mem_reverse] at h
+  have := (List.dropWhile_sublist _).subset h
+  exact List.mem_reverse.mp this
+
+theorem mem_sjoin (sep : Str) (toks : List Str) (c : Char) (h : c ∈ sjoin sep toks) :
+    c ∈ sep ∨ ∃ t ∈ toks, c ∈ t := by
+  induction toks with
+  | nil => simp [sjoin] at h
+  | cons t ts ih =>
+    cases ts with
+    | nil => exact Or.inr ⟨t, by simp, by simpa [sjoin] using h⟩
+    | cons t' ts' =>
+      simp only [sjoin, List.mem_append] at h
+      rcases h with (h | h) | h
+      · exact Or.inr ⟨t, by simp, h⟩
+      · exact Or.inl h
+      · rcases ih h with h | ⟨x, hx, hc⟩
+        · exact Or.inl h
+        · exact Or.inr ⟨x, List.mem_cons_of_mem _ hx, hc⟩
+
+theorem lineTexts_noNl (c : FillCfg) (L : List Line)
+    (hc : '\n' ∉ c.sepN ∧ '\n' ∉ c.sepT ∧ '\n' ∉ c.sufN ∧ '\n' ∉ c.sufT)
+    (hL : ∀ l ∈ L, '\n' ∉ l.pre ∧ ∀ t ∈ l.toks, '\n' ∉ t) :
+    ∀ x ∈ lineTexts c L, '\n' ∉ x.1 := by
+  have key : ∀ (l : Line) (fin : Bool), ('\n' ∉ l.pre ∧ ∀ t ∈ l.toks, '\n' ∉ t) → '\n' ∉ l.text c fin := by
+    intro l fin ⟨hp, ht⟩ hm
+    simp only [Line.text, Line.body, List.mem_append] at hm
+    rcases hm with ((hm | hm) | hm) | hm
+    · exact hp hm
+    · rcases mem_sjoin _ _ _ hm with hm | ⟨t, ht', hm⟩
+      · exact hc.1 hm
+      · exact ht t ht' hm
+    · have := mem_rstrip _ _ hm
+      cases fin
+      · exact hc.1 (by simpa using this)
+      · exact hc.2.1 (by simpa using this)
+    · cases fin
+      · exact hc.2.2.1 (by simpa using hm)
+      · exact hc.2.2.2 (by simpa using hm)
+  induction L with
+  | nil => intro x hx; cases hx
+  | cons l ls ih =>
+    cases ls with
+    | nil =>
+      intro x hx
+      simp [lineTexts] at hx
+      subst hx
+      exact key l true (hL l (by simp))
+    | cons l' ls' =>
+      intro x hx
+      simp only [lineTexts, List.mem_cons] at hx
+      rcases hx with rfl | hx
+      · exact key l false (hL l (by simp))
+      · exact ih (fun y hy => hL y (List.mem_cons_of_mem _ hy)) x (by simpa [lineTexts] using hx)
+
+theorem spaces_noNl (n : Nat) : '\n' ∉ spaces n := by
+  intro h
+  have := List.eq_of_mem_replicate h
+  cases this
+
+theorem fillLines_noNl (c : FillCfg) (N : Nat) (t : Str) (ts : List Str)
+    (hp : '\n' ∉ c.pre1 ∧ '\n' ∉ c.preC) (ht : ∀ x ∈ t :: ts, '\n' ∉ x) :
+    ∀ l ∈ fillLines c N ⟨c.pre1, [t]⟩ ts, '\n' ∉ l.pre ∧ ∀ x ∈ l.toks, '\n' ∉ x := by
+  intro l hl
+  obtain ⟨l0, ls, e, h1, h2⟩ := fillLines_pre c N ⟨c.pre1, [t]⟩ ts
+  have htk := fillLines_toks c N ⟨c.pre1, [t]⟩ ts
+  constructor
+  · rw [e] at hl
+    simp at hl
+    rcases hl with rfl | hl
+    · rw [h1]; exact hp.1
+    · rw [h2 l hl]; exact hp.2
+  · intro x hx
+    apply ht
+    have : x ∈ (fillLines c N ⟨c.pre1, [t]⟩ ts).flatMap Line.toks := List.mem_flatMap.mpr ⟨l, hl, hx⟩
+    rw [htk] at this
+    simpa using this
+
+theorem pyfillLines_noNl (pfx : Str) (tokens : List Str) (p : Params)
+    (hp : '\n' ∉ pfx) (ht : ∀ t ∈ tokens, '\n' ∉ t) : ∀ x ∈ pyfillLines pfx tokens p, '\n' ∉ x.1 := by
+  unfold pyfillLines
+  cases tokens with
+  | nil => intro x hx; cases hx
+  | cons t ts =>
+    simp only
+    split
+    · intro x hx hm
+      simp at hx
+      subst hx
+      simp only [List.mem_append] at hm
+      rcases hm with hm | hm
+      · exact hp hm
+      · rcases mem_sjoin _ _ _ hm with hm | ⟨y, hy, hm⟩
+        · revert hm; decide
+        · exact ht y hy hm
+    · split
+      · intro x hx
+        simp only [List.mem_cons] at hx
+        rcases hx with rfl | hx
+        · intro hm
+          simp only [List.mem_append] at hm
+          rcases hm with hm | hm
+          · exact hp hm
+          · revert hm; decide
+        · exact lineTexts_noNl (hangCfg p) _ (by simp [hangCfg])
+            (fillLines_noNl (hangCfg p) p.N t ts ⟨spaces_noNl _, spaces_noNl _⟩ ht) x hx
+      · intro x hx
+        exact lineTexts_noNl (parenCfg pfx) _ (by simp [parenCfg])
+          (fillLines_noNl (parenCfg pfx) p.N t ts
+            ⟨by simp [parenCfg]; exact hp, spaces_noNl _⟩ ht) x hx
+
 end Pfb.C11
